@@ -16,7 +16,7 @@ from vlib.runner import HarnessError, ShardResult, Violation
 ID = "C10"
 LEVEL = "exploration"
 RULE = ("a case is a history over one service id on strictly consecutive connections, drawn from {connect, config(c1|c2), "
-        "upload(e1|e2), search(t_w), message with a foreign sid, message of unknown type, close, reconnect, reconnect inside the server's cleanup pause (the pause is a gate owned by the driver), server restart}; c1/c2 are valid "
+        "upload(e1|e2), search(t_w), message with a foreign sid, message of unknown type, close, reconnect, reconnect inside the server's cleanup pause (the pause is a gate owned by the driver), server restart, a complete workflow of a companion service whose id shares a 40-character prefix}; c1/c2 are valid "
         "configurations differing in identifier size, e1/e2 index two databases that share keywords but not postings, so answering "
         "from the wrong config or index changes results. Executed over real loopback websockets against the real handler; the "
         "observable trace (init-echo state, ok / refused, result payloads) must equal the trace of a 3-state reference model "
@@ -89,6 +89,7 @@ class Driver:
         self.gate = None          # the server's cleanup pause, released by the driver (set by run_history)
         self.unsettled = 0        # closed connections whose cleanup pause has not been released yet
         self.early_reconnects = 0
+        self.companion = None
 
     def fail(self, msg, bucket):
         raise Violation("%s: %s | history so far: %r" % (self.scheme, msg, self.trace), "%s:%s" % (self.scheme, bucket))
@@ -195,6 +196,24 @@ class Driver:
             return
         if kind == "close":
             await self.drain_and_close()
+            return
+        if kind == "companion":
+            # another service whose id shares a long prefix with this one goes through its own workflow on the same server;
+            # nothing of it may leak into this service (and vice versa)
+            await self.drain_and_close()
+            await self.settle()
+            if self.companion is None:
+                comp_sid = self.sid[:40] + hashlib.sha256(b"companion" + self.sid.encode()).hexdigest()[:24]
+                self.companion = Driver(self.scheme, self.fx, comp_sid, self.srv)
+                self.companion.gate = self.gate
+                self.companion.trace = self.trace
+            c = self.companion
+            for ev2 in ([["config", 2], ["upload", 2]] if c.state == 0 else []) + [["search", "alpha"], ["search", "beta"]]:
+                await Driver.step(c, list(ev2))
+                self.trace.pop()  # the companion's own steps are not part of this service's history
+            await c.drain_and_close()
+            await c.settle()
+            self.unsettled = 0
             return
         if kind == "restart":
             await self.drain_and_close()
@@ -345,7 +364,7 @@ def st_case(draw, max_len):
         st.tuples(st.just("search"), st.sampled_from(["alpha", "beta", "gamma", "absent"])).map(list),
         st.tuples(st.just("foreign"), st.sampled_from(["config", "upload_edb", "token"])).map(list),
         st.tuples(st.just("unknown"), st.sampled_from(["delete", "init", "result", "control", ""])).map(list),
-        st.sampled_from([["reconnect"], ["reconnect"], ["reconnect_early"], ["reconnect_early"], ["close"], ["restart"]]))
+        st.sampled_from([["reconnect"], ["reconnect"], ["reconnect_early"], ["reconnect_early"], ["close"], ["restart"], ["companion"]]))
     return {"scheme": draw(st.sampled_from(SCHEMES)), "history": draw(st.lists(ev, min_size=1, max_size=max_len)),
             "seed": draw(st.integers(1, 5))}
 
@@ -358,7 +377,7 @@ def body(case, res):
         kinds = [e[0] for e in case["history"]]
         nt = bool(drv and drv.refused >= 1 and drv.reconnects_after_accept >= 1)
         cl = ["scheme:" + case["scheme"], "final_state:%s" % (drv.state if drv else "?")]
-        for k in ("foreign", "unknown", "restart", "reconnect_early"):
+        for k in ("foreign", "unknown", "restart", "reconnect_early", "companion"):
             if k in kinds:
                 cl.append("has_" + k)
         if drv and drv.refused:
@@ -393,6 +412,20 @@ def run_shard(spec, seed, tier):
                 except Violation as v:
                     if v.bucket not in first:
                         first[v.bucket] = (case, str(v))
+        if spec["first"] == "config1":
+            # explicit histories with a companion service (shared id prefix) before / after / between this service's steps
+            for scheme in SCHEMES:
+                for hist in ([["config", 1], ["upload", 1], ["companion"], ["search", "alpha"], ["search", "beta"]],
+                             [["companion"], ["config", 1], ["upload", 1], ["search", "alpha"], ["companion"], ["search", "beta"]],
+                             [["config", 1], ["companion"], ["upload", 1], ["search", "alpha"], ["reconnect_early"], ["search", "beta"]],
+                             [["config", 1], ["upload", 1], ["search", "alpha"], ["companion"], ["reconnect"], ["search", "alpha"]]):
+                    case = {"scheme": scheme, "history": hist, "seed": 1}
+                    count += 1
+                    try:
+                        body(case, res)
+                    except Violation as v:
+                        if v.bucket not in first:
+                            first[v.bucket] = (case, str(v))
         res.exhaustive = len(first) < 3
         res.extra["exhaustive_histories"] = count
         res.extra["exhaustive_bounds"] = "all histories of depth <= %d over %r (one scheme)" % (depth, ALPHABET)
